@@ -13,8 +13,8 @@
 
 enum { V_WFS, V_LFS, V_LFSRCU };
 enum { M_LOCKED, M_SINGLE, M_RCU };
-enum { OP_PUSH, OP_POP, OP_POP_STATE, OP_POP_NB, OP_POP_ALL, OP_EMPTY, OP_POP_REPUSH, OP_NK };
-static const char *const opname[] = { "push", "pop", "pop_state", "pop_nb", "pop_all", "empty", "pop_repush" };
+enum { OP_PUSH, OP_POP, OP_POP_STATE, OP_POP_NB, OP_POP_ALL, OP_EMPTY, OP_POP_REPUSH, OP_POP_ALL_REPUSH, OP_NK };
+static const char *const opname[] = { "push", "pop", "pop_state", "pop_nb", "pop_all", "empty", "pop_repush", "pop_all_repush" };
 
 struct snode {
 	union {
@@ -141,7 +141,10 @@ static void do_op(int me, struct op *op)
 		}
 		break;
 	}
-	case OP_POP_ALL: {
+	case OP_POP_ALL:
+	case OP_POP_ALL_REPUSH: {
+		struct snode *got[WGL_MAXLIST];
+		int ngot = 0, k;
 		i = wgl_begin(&H, WS_POP_ALL, 0, 0);
 		if (variant == V_WFS) {
 			struct cds_wfs_head *h;
@@ -153,6 +156,7 @@ static void do_op(int me, struct op *op)
 					usim_fail("stack-iteration", "iteration over pop_all result does not terminate");
 				n = caa_container_of(it, struct snode, u.w);
 				wgl_list_add(&H, i, n->id);
+				got[ngot++] = n;
 			}
 		} else if (variant == V_LFS) {
 			struct cds_lfs_head *h;
@@ -165,10 +169,22 @@ static void do_op(int me, struct op *op)
 						usim_fail("stack-iteration", "iteration over pop_all result does not terminate");
 					n = caa_container_of(it, struct snode, u.l);
 					wgl_list_add(&H, i, n->id);
+					got[ngot++] = n;
 				}
 			}
 		} else {
 			wgl_cancel(&H, i);
+		}
+		if (op->kind == OP_POP_ALL_REPUSH && ngot) {
+			/* the owner of the popped nodes pushes them back; in the RCU scheme only after a grace period */
+			if (mode == M_RCU)
+				F->synchronize_rcu();
+			for (k = 0; k < ngot && H.n + 2 <= WGL_MAXOPS - 1; k++) {
+				int j = wgl_begin(&H, WS_PUSH, 0, got[k]->id);
+				st = push_node(got[k]);
+				wgl_end(&H, j, st != 0);
+			}
+			usim_probe("stack.pop_all_recycled");
 		}
 		break;
 	}
@@ -256,7 +272,7 @@ void scen_stacks(void)
 			else if (r < 72) op->kind = variant == V_WFS ? OP_POP_NB : OP_POP;
 			else if (r < 82) op->kind = variant == V_LFSRCU ? OP_POP : OP_POP_ALL;
 			else if (r < 90) op->kind = OP_EMPTY;
-			else op->kind = OP_POP_REPUSH;
+			else op->kind = (r < 95 || variant == V_LFSRCU) ? OP_POP_REPUSH : OP_POP_ALL_REPUSH;
 			/* pop_all in the RCU scheme hands nodes to the caller: they are not reused here */
 			usim_describe("%s\"%s\"", i ? "," : "", opname[op->kind]);
 		}
